@@ -60,10 +60,18 @@ def run(ctx):
   # ---- C06.always-parses
   emits = [c for c in walk_local(cs.node) if isinstance(c, ast.Call) and prog.resolve_call(cs, c) == fb.qual]
   ctx.expect_at_least('binding emission sites in _config_str', len(emits), 1)
+  # the value parameter of format_binding is the one that is pretty-printed
+  fparams = [a.arg for a in fb.node.args.posonlyargs + fb.node.args.args]
+  printed = [x.args[0].id for x in ast.walk(fb.node) if isinstance(x, ast.Call) and u(x.func) in ('pprint.pformat', 'pformat', 'repr')
+             and x.args and isinstance(x.args[0], ast.Name) and x.args[0].id in fparams]
+  if len(set(printed)) != 1:
+    raise AnalysisError('format_binding: cannot tell which parameter is the printed value (%s)' % sorted(set(printed)))
+  vpos = fparams.index(printed[0])
   for c in emits:
-    if len(c.args) < 2:
+    kw = [k.value for k in c.keywords if k.arg == printed[0]]
+    if any(isinstance(a, ast.Starred) for a in c.args) or (len(c.args) <= vpos and not kw):
       raise AnalysisError('format_binding call without a value argument at line %d' % c.lineno)
-    val = c.args[1]
+    val = c.args[vpos] if len(c.args) > vpos else kw[0]
     st = enclosing_stmt(c)
     fs = facts_at(g, facts, st) or frozenset()
     ok = False
@@ -201,6 +209,7 @@ def run(ctx):
   reference_repr(ctx, 'C06.reference-repr')
   reference_eq(ctx, 'C06.roundtrip-guard')
   method_selector_rule(ctx, 'C06.selectors')
+  ctx.borrow('C19', 'C19.import-source', 'C06.selectors')     # the module a selector is printed against is the one it was resolved through
 
   # ---- C06.markdown
   md = ctx.func('config.markdown')
